@@ -81,7 +81,8 @@ func badBytes(class string, variant int, own json.RawMessage) (payload string, r
 	case "blank":
 		return "\n\n\n", true
 	case "comment":
-		return []string{": just a comment", ": c1\n: c2\n:\nretry: 5", ": trailing comment without blank line\nevent: noise"}[variant%3], true
+		// the last variant is not followed by the blank line that ends an event: the stream just ends after it
+		return []string{": just a comment", ": c1\n: c2\n:\nretry: 5", ": trailing comment without blank line\nevent: noise", ": unterminated comment" + c07NoBlank}[variant%4], true
 	case "noresult":
 		return fmt.Sprintf(`{"jsonrpc":"2.0","id":%s}`, own), false
 	case "both":
@@ -124,6 +125,9 @@ type c07Srv struct {
 	getUp  chan struct{}
 	calls  int32
 }
+
+// c07NoBlank at the end of a raw payload: write it with a single line end, no blank line after it
+const c07NoBlank = "<no-blank-line>"
 
 func c07Answer(id json.RawMessage, nonce string) string {
 	return fmt.Sprintf(`{"jsonrpc":"2.0","id":%s,"result":{"content":[{"type":"text","text":"A:%s"}]}}`, id, nonce)
@@ -199,6 +203,9 @@ func (s *c07Srv) serve(w http.ResponseWriter, r *http.Request) {
 	pos := s.sc.Pos
 	sseFrame := func(payload string, isRaw bool, legacy bool) string {
 		if isRaw {
+			if strings.HasSuffix(payload, c07NoBlank) {
+				return strings.TrimSuffix(payload, c07NoBlank) + "\n"
+			}
 			return payload + "\n\n"
 		}
 		if legacy {
@@ -258,6 +265,7 @@ func (s *c07Srv) serve(w http.ResponseWriter, r *http.Request) {
 		w.WriteHeader(200)
 		io.WriteString(w, ans)
 	default: // json
+		bad = strings.TrimSuffix(bad, c07NoBlank)
 		ct := "application/json"
 		status := 200
 		out := ans
@@ -320,7 +328,7 @@ func c07Run(sc c07Scenario) (res c07Result) {
 		cfgPath := filepath.Join(dir, "cfg.json")
 		bad, raw := badBytes(sc.Bad, sc.Variant, json.RawMessage("3"))
 		_ = raw
-		line := bad + "\n"
+		line := strings.TrimSuffix(bad, c07NoBlank) + "\n"
 		when := sc.Pos
 		b, _ := json.Marshal(stdioPeerCfg{Emit: []stdioEmit{{AtLine: 3, When: when, Raw: line}}, Answers: map[string]string{"tools/call": `{"content":[{"type":"text","text":"A:STDIO"}]}`}})
 		os.WriteFile(cfgPath, b, 0644)
@@ -357,7 +365,19 @@ func c07Run(sc c07Scenario) (res c07Result) {
 		req.Params.Name = "echo"
 		req.Params.Arguments = map[string]interface{}{"nonce": nonce}
 		t0 := time.Now()
-		r, err := cl.CallTool(ctx, req)
+		var r *mcp.CallToolResult
+		var err error
+		done := make(chan struct{})
+		go func() {
+			defer close(done)
+			r, err = cl.CallTool(ctx, req)
+		}()
+		select {
+		case <-done:
+		case <-time.After(d + 4*time.Second):
+			// the call ignores its context: it hangs (its goroutine is left behind)
+			return c07Call{Err: "call did not return", Ms: float64(time.Since(t0)) / float64(time.Millisecond)}
+		}
 		c := c07Call{Ms: float64(time.Since(t0)) / float64(time.Millisecond)}
 		if err != nil {
 			c.Err = err.Error()
